@@ -321,6 +321,8 @@ func runOp(line string) (res string) {
 		}
 	}()
 	switch f[0] {
+	case "mergeaggs":
+		return runMergeAggs(line)
 	case "merge": // merge <desc> <limit> <hi> <dst> <qprs>
 		dst, err := parseQPR(f[4])
 		if err != nil {
@@ -908,6 +910,8 @@ func main() {
 	chReal := vh.NewChannel("searchdocs.real", "real Searcher.SearchDocs over real fractions of a FracManager vs SV.Merge.searchDocs fed with the fractions' Info and match sets")
 	chAPIGrpc = vh.NewChannel("api.grpc", "real storeapi.GrpcV1.Search(req) on a real store (requests at the integer edges: From/To 0, -1, MinInt64, MaxInt64, MIDs above 2^63, Size 0/-1/MaxInt64, Offset > total, Interval 0/1/-1, undeclared Order, hot-store refusal, MaxFractionHits) vs SV.Api.grpcSearch; non-trivial = an answer with IDs")
 	chAPIProxy = vh.NewChannel("api.proxy", "real search.Ingestor.Search(sr) over real stores (2 replicas per shard, replica 0 of odd shards down, with and without ShuffleReplicas) vs SV.Api.proxySearch over SV.Api.grpcSearch; also which replicas were asked")
+	chAggs := vh.NewChannel("qpr.mergeaggs", "aggregation part of seq.MergeQPRs (AggregatableSamples.Merge / SamplesContainer.Merge per bin: Min/Max/Sum/Total/NotExists/Samples) vs SV.Merge.mergeAggs; a piece holding only value-less documents (Total == 0 && NotExists > 0) sits first, in the middle or last; non-trivial = >1 piece")
+	orcAggs := vh.NewOracle("qpr.mergeaggs.order", "real MergeQPRs: merging the pieces in reverse order gives the same Total/NotExists/Sum per bin")
 	orcSD := vh.NewOracle("searchdocs.partition", "SearchDocs over k scripted fractions equals the one-fraction answer (ids, total, histogram) for every FractionsPerIteration; non-trivial = more matches than the limit over >1 fraction")
 	orcPx := vh.NewOracle("proxy.paging", "Ingestor.Search page (offset,size) over s shards equals that window of the single ordered list")
 	orcSys := vh.NewOracle("system.fractions", "real FracManager: corpus in one fraction vs the same corpus in k fractions (active+sealed, overlapping ranges), all FractionsPerIteration, both orders; non-trivial = k>1 and more matches than the limit")
@@ -920,10 +924,10 @@ func main() {
 		}
 		var sysLines []string
 		byKind := map[string]*vh.Channel{"merge": chMerge, "ensured": chEns, "sortfracs": chSort, "filter": chFilt, "paginate": chPag,
-			"searchdocs": chSD, "proxymerge": chPx}
+			"searchdocs": chSD, "proxymerge": chPx, "mergeaggs": chAggs}
 		for _, l := range lines {
 			kind := strings.Fields(l + " .")[0]
-			if kind == "sys" || kind == "cluster" || kind == "sysbig" || kind == "sysdist" || kind == "grpc" || kind == "proxyreq" {
+			if kind == "sys" || kind == "cluster" || kind == "sysbig" || kind == "sysdist" || kind == "grpc" || kind == "proxyreq" || kind == "sysagg" {
 				sysLines = append(sysLines, l)
 			} else if ch := byKind[kind]; ch != nil {
 				ch.Add(l, runOp(l), true, "replay")
@@ -941,6 +945,7 @@ func main() {
 			rep.Note("stage %s: %.1fs", name, time.Since(t0).Seconds())
 		}
 		stage("merge", func() { exhMerge(chMerge); genMerge(g, chMerge, o.Pick(3000, 40000)) })
+		stage("mergeaggs", func() { genMergeAggs(g, chAggs, orcAggs, rep, o.Pick(1500, 20000)) })
 		stage("ensured", func() { genEnsured(g, chEns, o.Pick(500, 10000)) })
 		stage("sortfilter", func() { genSortFilter(g, chSort, chFilt, o.Pick(500, 5000)) })
 		stage("paginate", func() { genPaginate(chPag); chPag.Exhaustive = true })
@@ -953,16 +958,18 @@ func main() {
 			lines := append(genSys(g, o), genCluster(g, o)...)
 			lines = append(lines, genDist(g, o)...)
 			lines = append(lines, genAPI(g, o)...)
+			lines = append(lines, genSysAgg(g, o)...)
 			// posting lists longer than one LID block (65536 entries) of a sealed fraction
 			lines = append(lines, fmt.Sprintf("sysbig n=%d k=%d", o.Pick(70000, 140000), o.Pick(3, 5)))
 			runSys(lines, chReal, orcSys, rep, o)
 		})
 	}
-	for _, ch := range []*vh.Channel{chMerge, chEns, chSort, chFilt, chPag, chSD, chPx, chReal, chAPIGrpc, chAPIProxy} {
+	for _, ch := range []*vh.Channel{chMerge, chEns, chSort, chFilt, chPag, chSD, chPx, chReal, chAPIGrpc, chAPIProxy, chAggs} {
 		t0 := time.Now()
 		rep.AddChannel(ch, o.Driver)
 		rep.Note("driver %s: %d cases %.1fs", ch.Name, ch.Cases, time.Since(t0).Seconds())
 	}
+	rep.AddOracle(orcAggs)
 	rep.AddOracle(orcSD)
 	rep.AddOracle(orcPx)
 	rep.AddOracle(orcSys)
